@@ -446,6 +446,10 @@ class BaseModel(Generic[MvalT_co], metaclass=ModelsMeta):
         # ensure R has each world
         for w in self.frames:
             self.R[w]
+        # enforcing the access restrictions can add a world, which needs a frame too
+        self.R.enforce()
+        for w in self.R:
+            self.frames[w]
         for w, frame in self.frames.items():
             atomics.update(frame.atomics)
             opaques.update(frame.opaques)
